@@ -8,7 +8,8 @@
                        finalize_outputs is `state is Revert`.
   COV-receipts         ReceiptsCtx::push appends the same receipt to the list and (its canonical bytes) to
                        the Merkle tree, after the full / reserved-slot tests (len == MAX-1 accepts only
-                       ScriptResult, len == MAX-2 only ScriptResult | Panic); the only other writers are
+                       ScriptResult, len == MAX-2 only ScriptResult | Panic — decided by case analysis over
+                       (len, receipt variant), fvlib.cases, so boolean-flag spellings are equal); the only other writers are
                        clear, the ReceiptsCtxMut guard (whose Drop recomputes the root) and the consuming
                        From impl.
   SHAPE-outputs        update_outputs: variable outputs are zeroed and change outputs read
@@ -28,6 +29,7 @@ from fvlib.core import (CFG, CallGraph, agg_blocks, assignments, bool_switch_tar
                         callee_name, describe, guards, guard_region, short, origins)
 from fvlib.summ import Summaries, ok_sites, path_minmax
 from fvlib.effects import FieldEffects
+from fvlib import cases
 
 
 CFGS = ["A", "T"]   # T = fuel-vm with feature test-helpers (MemoryClient lives behind it)
@@ -43,31 +45,31 @@ def reserved_slot_variants(F, rep, rule):
     names = {k: v["name"] for k, v in enumerate(F.adt("fuel_tx::receipt::Receipt")["variants"])}
     appends = [i for i, c, args, *_ in calls(pf) if callee_matches(c, r"Vec.*::push$")]
     want = {1: {"ScriptResult"}, 2: {"ScriptResult", "Panic"}}
+    # case analysis (fvlib.cases): for len == MAX-k and each receipt variant, can the Vec::push be reached?
+    maxr = F.const("fuel_vm::interpreter::receipts::ReceiptsCtx::MAX_RECEIPTS")
+    if not isinstance(maxr, int):
+        for ck in ("fuel_vm::interpreter::receipts::<impl fuel_vm::interpreter::receipts::ReceiptsCtx>::MAX_RECEIPTS",):
+            maxr = F.const(ck) if not isinstance(maxr, int) else maxr
     found = {}
-    for g in guards(pf):
-        if g["op"] in ("Eq", "Ne") and g["a_desc"] == "call:len(arg:self.receipts)":
-            m = re.match(r"^Sub(?:WithOverflow|Unchecked)?\(const:.*ReceiptsCtx::MAX_RECEIPTS,const:(\d)\)$", g["b_desc"])
-            if not m:
-                continue
-            k = int(m.group(1))
-            eq_side = g["t"] if g["op"] == "Eq" else g["f"]
-            ne_side = g["f"] if g["op"] == "Eq" else g["t"]
-            # the discriminant switch on the receipt that is only reachable on the eq side
-            allowed = None
-            for b in sorted(cfg.reachable_incl(eq_side) - cfg.reachable_incl(ne_side)):
-                t = pf["bbs"][b]["t"]
-                if t[0] == "switch" and describe(pf, t[1], depth=6) == "disc(arg:receipt)":
-                    # variants from which the append is reachable without passing the TooManyReceipts construction
-                    errb = set(agg_blocks(pf, r"PanicReason$", "TooManyReceipts"))
-                    allowed = set()
-                    arms = [(names.get(v, str(v)), tg) for v, tg in t[2]]
-                    listed = {nm for nm, _ in arms}
-                    for nm, tg in arms + [("_", t[3])]:
-                        eff = _follow_flag(pf, tg)
-                        if any(a == eff or a in cfg._reach_from([eff], avoid=errb) for a in appends) and eff not in errb:
-                            allowed |= ({nm} if nm != "_" else {x for x in names.values() if x not in listed})
-                    break
-            found[k] = allowed
+    for k in (1, 2):
+        allowed = set()
+        decided = isinstance(maxr, int)
+        for dv, nm in sorted(names.items()):
+            def oracle(kind, desc, dv=dv, k=k):
+                if kind == "call" and re.match(r"^call:len\(arg:self\.receipts\)$", desc):
+                    return maxr - k
+                if kind == "disc" and re.match(r"^arg:receipt$", desc):
+                    return dv
+                if kind == "const" and desc.endswith("MAX_RECEIPTS"):
+                    return maxr
+                return None
+            reach = cases.explore(pf, oracle) if decided else None
+            if reach is None:
+                decided = False
+                break
+            if any(a_ in reach for a_ in appends):
+                allowed.add(nm)
+        found[k] = allowed if decided else None
     for k in (1, 2):
         got = found.get(k)
         rep.check(got == want[k], rule, "push:reserved-slot(MAX-%d)-accepts-only-%s" % (k, "|".join(sorted(want[k]))), where,
@@ -280,14 +282,19 @@ def run(F, rep, tier, allfacts):
     sr_ = call_blocks(tf, r"::should_revert$")
     rv_ = call_blocks(tf, r"MemoryStorage::revert$")
     cm_ = call_blocks(tf, r"MemoryStorage::commit$")
-    okt = False
-    if len(sr_) == 1 and len(cm_) == 1 and len(rv_) == 2:
-        tgt = tf["bbs"][sr_[0]]["t"][4]
-        tt = bool_switch_targets(tf["bbs"][tgt]["t"]) if tgt is not None else None
-        if tt:
-            okt = any(b in cfg.reachable_incl(tt[0]) for b in rv_) and cm_[0] in cfg.reachable_incl(tt[1]) and cm_[0] not in cfg.reachable_incl(tt[0])
-            # the error arm (no should_revert evaluated) reverts
-            okt = okt and any(b not in cfg.reachable_from(sr_[0]) for b in rv_)
+    # case analysis (fvlib.cases): {result Ok & should_revert, result Ok & !should_revert, result Err} -> which of revert / commit runs
+    def outcome(res_disc, should):
+        def oracle(kind, desc):
+            if kind == "disc" and "result(" in desc:
+                return res_disc
+            if kind == "call" and desc.startswith("call:should_revert("):
+                return should
+            return None
+        reach = cases.explore(tf, oracle)
+        if reach is None:
+            return None
+        return (any(b in reach for b in rv_), any(b in reach for b in cm_))
+    okt = len(sr_) == 1 and len(cm_) >= 1 and len(rv_) >= 1 and outcome(0, True) == (True, False) and outcome(0, False) == (False, True) and outcome(1, None) == (True, False)
     rep.check(okt, "SIB-client-commit", "transact:revert-on-revert/err,commit-otherwise", where,
               "MemoryClient::transact must revert when should_revert() or on error and commit otherwise")
     rets = cfg.exits("ret")
